@@ -524,7 +524,12 @@ class World:
         if status == "ok":
             self.iid += 1
             recipe = inst.recipe + [step]
-            self.slots[op["slot"]] = Instance(self.iid, inst.family, val, recipe, op["slot"])
+            # "dst": the copy goes to another slot of the same family and the
+            # original stays in use (clone); otherwise it replaces the original
+            dst = op.get("dst", op["slot"])
+            if self.plan["slots"][dst] != self.plan["slots"][op["slot"]]:
+                dst = op["slot"]
+            self.slots[dst] = Instance(self.iid, inst.family, val, recipe, dst)
             rec["family"] = inst.family
             rec["recipe"] = recipe
             rec["out_snap"] = module_state_snap(val)
